@@ -225,3 +225,220 @@ Proof.
   - apply (retry_lock_ok_norel t m rs ND' fuel w out w' Hf Q Can' R).
   - inversion R. apply norel_refl.
 Qed.
+
+(* ================================================================ no release by a non-holder, whatever the outcome *)
+Definition nobad_ev (e : ev) : Prop := match e with ERaw _ _ _ RBad => False | _ => True end.
+Definition nobad (w w' : world) : Prop := exists evs, w_trace w' = evs ++ w_trace w /\ Forall nobad_ev evs.
+
+Lemma nobad_refl w : nobad w w.
+Proof. exists []. split; [reflexivity|constructor]. Qed.
+Lemma nobad_trans a b c : nobad a b -> nobad b c -> nobad a c.
+Proof.
+  intros [e1 [T1 F1]] [e2 [T2 F2]]. exists (e2 ++ e1). split; [rewrite T2, T1; now rewrite app_assoc|apply Forall_app; now split].
+Qed.
+
+Lemma eff_nobad w w' f : eff w w' f -> nobad w w'.
+Proof.
+  intros E. destruct (eff_tr _ _ _ E) as [evs [T F]]. exists evs. split; [exact T|].
+  eapply Forall_impl; [|exact F]. intros e He. destruct e as [t0 k l r| | | |]; try exact I. destruct r; simpl in *; tauto.
+Qed.
+
+(* only a release can be refused as "not the holder" *)
+Definition bad_is_rel (e : ev) : Prop := match e with ERaw _ k _ RBad => rop_rel k = true | _ => True end.
+
+Lemma run_bad_is_rel pw t p w out w' :
+  run pw t p w = (out, w') -> exists evs, w_trace w' = evs ++ w_trace w /\ Forall bad_is_rel evs.
+Proof.
+  intros R.
+  destruct (run_ops_inv pw t (fun _ => True) (fun _ => True) bad_is_rel) with (p := p) (w := w) (out := out) (w' := w') as [_ H]; auto.
+  - intros o w1 _ _. destruct o; simpl; try (split; [exact I|exists []; split; [reflexivity|constructor]]);
+      try (split; [exact I|eexists [_]; split; [reflexivity|repeat constructor]]).
+    destruct (faulty w1 k l); [split; [exact I|eexists [_]; split; [reflexivity|repeat constructor]]|].
+    unfold raw_apply.
+    destruct k; simpl;
+      repeat match goal with |- context [if ?b then _ else _] => destruct b end;
+      (split; [exact I|eexists [_]; split; [reflexivity|repeat constructor]]).
+  - clear. induction p; constructor; auto.
+Qed.
+
+Lemma norel_nobad pw t p w out w' : run pw t p w = (out, w') -> norel w w' -> nobad w w'.
+Proof.
+  intros R [evs [T F]]. destruct (run_bad_is_rel pw t p w out w' R) as [evs' [T' F']].
+  assert (evs' = evs) by (rewrite T in T'; now apply app_inv_tail in T'). subst evs'.
+  exists evs. split; [exact T|]. rewrite Forall_forall in *. intros e He. specialize (F e He). specialize (F' e He).
+  destruct e as [t0 k l r| | | |]; try exact I. destruct r; try exact I. simpl in *. congruence.
+Qed.
+
+(* blocking acquisitions that return or wait: no release operation at all *)
+Lemma leaf_lock_norel pw t m k l w out w' :
+  run pw t (leaf_lock m k l) w = (out, w') -> (exists v, out = ODone v) \/ out = OBlocked -> norel w w'.
+Proof.
+  unfold leaf_lock. cbn [run do_op]. destruct (vtrue (VBool (w_kill w l))); [intros H [[v E]|E]; inversion H; congruence|].
+  cbn [run op_ do_op]. destruct (faulty w (acq_op k m) l).
+  - cbn [run op_ do_op]. intros H [[v E]|E]; inversion H; congruence.
+  - destruct (raw_apply t (acq_op k m) (w_raw w l) (pw l)) as [s'|b s'| |] eqn:Ra; cbn [run]; intros H _; inversion H; subst;
+      (eexists [_]; split; [reflexivity|]; constructor; [apply acq_op_norel|constructor]).
+Qed.
+
+Section LockLoop2.
+  Variables (pw : lock -> bool) (t : tid) (m : mode) (lk : rawref -> prog).
+  Definition lk_ok2 (x : rawref) : Prop :=
+    forall w0 out w1, run pw t (lk x) w0 = (out, w1) -> (exists v, out = ODone v) \/ out = OBlocked -> norel w0 w1.
+
+  Lemma ordered_lock_norel todo : Forall lk_ok2 todo -> forall done w out w',
+    run pw t (ordered_lock_from m lk done todo) w = (out, w') -> (exists v, out = ODone v) \/ out = OBlocked -> norel w w'.
+  Proof.
+    induction 1 as [|x r Hx Hr IH]; intros done w out w' R Ho.
+    - cbn in R. inversion R. apply norel_refl.
+    - cbn [ordered_lock_from] in R. unfold pthen in R. cbn [run] in R.
+      destruct (run pw t (lk x) w) as [[v1| | | |] w1] eqn:R1.
+      + eapply norel_trans; [apply (Hx _ _ _ R1); left; eauto|apply (IH _ _ _ _ R Ho)].
+      + destruct (run pw t (recover m done) w1) as [[v2| | | |] w2] eqn:R2; inversion R; subst; destruct Ho as [[v E]|E]; try congruence.
+        exfalso. destruct (run_nonblocking pw t _ (ops_in_weaken _ _ _ nbalg_nbop (recover_nb m done)) _ _ _ R2) as [X _]. congruence.
+      + inversion R; subst. apply (Hx _ _ _ R1). now right.
+      + inversion R; subst. destruct Ho as [[v E]|E]; congruence.
+      + inversion R; subst. destruct Ho as [[v E]|E]; congruence.
+  Qed.
+End LockLoop2.
+
+Lemma rr_lock_norel pw t m r : lk_ok2 pw t (rr_lock m) r.
+Proof.
+  induction r as [k l|u inner IH] using rawref_ind'; intros w0 out w1 R Ho.
+  - apply (leaf_lock_norel pw t m k l _ _ _ R Ho).
+  - change (rr_lock m (ROwned u inner)) with (ordered_lock_from m (rr_lock m) [] inner) in R.
+    apply (ordered_lock_norel pw t m (rr_lock m) inner IH [] _ _ _ R Ho).
+Qed.
+
+(* the retrying acquisition, whether it completes or waits *)
+Section RetryAny.
+  Variables (t : tid) (m : mode) (locks : list rawref).
+  Hypothesis NDl : NoDup (locks_of (rsleaves locks)).
+
+  Definition again_nobad (again : nat -> prog) (f0 : St) : Prop :=
+    forall done x rest w out w', locks = done ++ x :: rest -> quiet w -> (forall y, w_raw w y = f0 y) ->
+      can_all m (rleaves x) f0 = false -> run nopw t (again (length done)) w = (out, w') -> nobad w w'.
+
+  Lemma retry_inner_nobad again f0 :
+    again_nobad again f0 ->
+    forall todo done w locked out w',
+      locks = done ++ todo -> done <> [] -> quiet w ->
+      (forall y, w_raw w y = acq_all t m (rsleaves done) f0 y) -> can_all m (rsleaves done) f0 = true ->
+      run nopw t (retry_inner m locks again 0 (length done) locked todo) w = (out, w') -> nobad w w'.
+  Proof.
+    intros Hag. induction todo as [|x r IH]; intros done w locked out w' Hl Hd Q Hw Cd R.
+    - cbn in R. inversion R. apply nobad_refl.
+    - cbn [retry_inner] in R.
+      assert (Hi : Nat.eqb (length done) 0 = false) by (destruct done; [contradiction|reflexivity]).
+      rewrite Hi in R.
+      assert (ND : NoDup (locks_of (rsleaves (done ++ x :: r)))) by (rewrite <- Hl; exact NDl).
+      rewrite rsleaves_app, rsleaves_cons, locks_of_app, locks_of_app in ND.
+      assert (NDx : NoDup (locks_of (rleaves x))) by (eapply NoDup_app_l, NoDup_app_r; eauto).
+      assert (NDd : NoDup (locks_of (rsleaves done))) by (eapply NoDup_app_l; eauto).
+      assert (Hfx : forall y, In y (locks_of (rleaves x)) -> w_raw w y = f0 y).
+      { intros y Hy. rewrite Hw. apply acq_all_other. intros Hin.
+        eapply NoDup_app_disj; [exact ND|exact Hin|]. apply in_or_app. now left. }
+      destruct (run_rr_try t m x w Q NDx) as [w1 [R1 E1]].
+      rewrite (can_all_ext m (rleaves x) (w_raw w) f0 Hfx) in R1, E1.
+      assert (Q1 : quiet w1) by (eapply eff_quiet; eauto).
+      rewrite run_bind, (run_catch_done _ _ _ _ _ _ _ R1) in R.
+      eapply nobad_trans; [apply (eff_nobad _ _ _ E1)|].
+      destruct (can_all m (rleaves x) f0) eqn:Cx; cbn [vtrue] in R.
+      + assert (Hl' : locks = (done ++ [x]) ++ r) by (rewrite <- app_assoc; exact Hl).
+        assert (Hw1 : forall y, w_raw w1 y = acq_all t m (rsleaves (done ++ [x])) f0 y).
+        { intros y. rewrite (eff_raw _ _ _ E1). rewrite rsleaves_app, rsleaves_one, acq_all_app.
+          apply acq_all_ext. exact Hw. }
+        assert (Cd' : can_all m (rsleaves (done ++ [x])) f0 = true).
+        { rewrite rsleaves_app, rsleaves_one, can_all_app, Cd, Cx. reflexivity. }
+        assert (Hd' : done ++ [x] <> []) by (destruct done; discriminate).
+        apply (IH (done ++ [x]) w1 (S locked) out w' Hl' Hd' Q1 Hw1 Cd').
+        rewrite app_length. cbn [length]. rewrite Nat.add_1_r. exact R.
+      + assert (Hf : firstn (length done) locks = done) by (rewrite Hl; apply firstn_app_len).
+        rewrite Hf in R. cbn [Nat.leb] in R.
+        assert (Hle : Nat.leb (length done) 0 = false) by (destruct done; [contradiction|reflexivity]).
+        rewrite Hle in R.
+        assert (Hh : held_all t m (rsleaves done) (w_raw w1) = true).
+        { rewrite (held_all_ext t m _ _ (acq_all t m (rsleaves done) f0)); [now apply held_after_acq|].
+          intros y _. rewrite (eff_raw _ _ _ E1). apply Hw. }
+        destruct (run_recover t m done w1 Q1 NDd Hh) as [w2 [R2 E2]].
+        assert (Q2 : quiet w2) by (eapply eff_quiet; eauto).
+        assert (Hw2 : forall y, w_raw w2 y = f0 y).
+        { intros y. rewrite (eff_raw _ _ _ E2).
+          rewrite (rel_all_ext t m _ _ (acq_all t m (rsleaves done) f0)); [now apply rel_acq_all|].
+          intros z. rewrite (eff_raw _ _ _ E1). apply Hw. }
+        rewrite (run_then_done _ _ _ _ _ VUnit w2) in R.
+        2:{ apply run_catch_done. rewrite (run_then_done _ _ _ _ _ _ _ R2). reflexivity. }
+        eapply nobad_trans; [apply (eff_nobad _ _ _ E2)|]. apply (Hag done x r w2 out w' Hl Q2 Hw2 Cx R).
+  Qed.
+
+  Lemma retry_outer_again_nobad f f0 : again_nobad (retry_outer m locks (S f)) f0.
+  Proof.
+    intros done x rest w out w' Hl Q Hw Cx R. cbn [retry_outer] in R.
+    assert (N : nthr (length done) locks = x) by (rewrite Hl; apply nth_app_len). rewrite N in R.
+    assert (ND : NoDup (locks_of (rsleaves (done ++ x :: rest)))) by (rewrite <- Hl; exact NDl).
+    rewrite rsleaves_app, rsleaves_cons, locks_of_app, locks_of_app in ND.
+    assert (NDx : NoDup (locks_of (rleaves x))) by (eapply NoDup_app_l, NoDup_app_r; eauto).
+    pose proof (run_rr_lock t m x w Q NDx) as H.
+    rewrite (can_all_ext m (rleaves x) (w_raw w) f0 (fun y _ => Hw y)), Cx in H.
+    destruct H as [w1 [R1 _]].
+    assert (Rb : run nopw t (Catch (rr_lock m x) (retry_handler m locks (length done) 0) ;;
+                              retry_inner m locks (retry_outer m locks f) (length done) 0 0 locks) w = (OBlocked, w1)).
+    { apply run_then_blocked. now apply run_catch_blocked. }
+    rewrite Rb in R. inversion R; subst out w'.
+    apply (norel_nobad nopw t _ _ _ _ R1). apply (rr_lock_norel nopw t m x _ _ _ R1). now right.
+  Qed.
+
+  Lemma retry_lock_nobad fuel w out w' :
+    2 <= fuel -> quiet w -> run nopw t (retry_lock m locks fuel) w = (out, w') -> nobad w w'.
+  Proof.
+    intros Hf Q R. unfold retry_lock in R. destruct locks as [|x rest] eqn:El.
+    - cbn in R. inversion R. apply nobad_refl.
+    - rewrite <- El in *. destruct fuel as [|[|f]]; try lia. cbn [retry_outer] in R.
+      assert (N0 : nthr 0 locks = x) by (rewrite El; reflexivity). rewrite N0 in R.
+      assert (ND : NoDup (locks_of (rsleaves (x :: rest)))) by (rewrite <- El; exact NDl).
+      rewrite rsleaves_cons, locks_of_app in ND.
+      pose proof (run_rr_lock t m x w Q (NoDup_app_l _ _ ND)) as H.
+      destruct (can_all m (rleaves x) (w_raw w)) eqn:Cx.
+      + destruct H as [w1 [R1 [E1 _]]].
+        assert (Q1 : quiet w1) by (eapply eff_quiet; eauto).
+        rewrite (run_then_done _ _ _ _ _ VUnit w1) in R by (apply (run_catch_done _ _ _ _ _ _ _ R1)).
+        assert (Hin : forall ag, retry_inner m locks ag 0 0 0 locks = retry_inner m locks ag 0 1 0 rest).
+        { intros ag. transitivity (retry_inner m locks ag 0 0 0 (x :: rest)); [f_equal; exact El|reflexivity]. }
+        rewrite Hin in R.
+        eapply nobad_trans; [apply (eff_nobad _ _ _ E1)|].
+        apply (retry_inner_nobad (retry_outer m locks (S f)) (w_raw w) (retry_outer_again_nobad f (w_raw w))
+                 rest [x] w1 0 out w' El ltac:(discriminate) Q1).
+        * intros y. rewrite rsleaves_one. apply (eff_raw _ _ _ E1).
+        * rewrite rsleaves_one. exact Cx.
+        * exact R.
+      + destruct H as [w1 [R1 _]].
+        unfold pthen in R. cbn [run] in R. rewrite R1 in R. inversion R; subst out w'.
+        apply (norel_nobad nopw t _ _ _ _ R1). apply (rr_lock_norel nopw t m x _ _ _ R1). now right.
+  Qed.
+End RetryAny.
+
+(* lock of any lock, wrapper or collection, whatever the outcome *)
+Lemma raw_lock_nobad t m am s fuel w out w' :
+  acquirable s = true -> NoDup (leaves s) -> quiet w -> 2 <= fuel ->
+  run nopw t (raw_lock fuel m (alg_of am s)) w = (out, w') -> nobad w w'.
+Proof.
+  intros Ha ND Q Hf R. pose proof (alg_refs_leaves am s Ha) as Hp.
+  assert (NDk : NoDup (locks_of (kleaves s))) by (rewrite <- leaves_kleaves; exact ND).
+  assert (ND' : NoDup (locks_of (rsleaves (alg_refs (alg_of am s))))).
+  { eapply Permutation_NoDup; [apply locks_of_perm; symmetry; exact Hp|exact NDk]. }
+  destruct (alg_of am s) as [k l|rs|rs|]; cbn [raw_lock alg_refs] in *.
+  - pose proof (run_rr_lock t m (RLeaf k l) w Q) as X. rewrite rsleaves_one in *. specialize (X ND').
+    change (rr_lock m (RLeaf k l)) with (leaf_lock m k l) in X.
+    destruct (can_all m (rleaves (RLeaf k l)) (w_raw w)).
+    + destruct X as [w1 [R1 [E1 _]]]. rewrite R1 in R. inversion R; subst. apply (eff_nobad _ _ _ E1).
+    + destruct X as [w1 [R1 _]]. rewrite R1 in R. inversion R; subst.
+      apply (norel_nobad nopw t _ _ _ _ R1). apply (leaf_lock_norel nopw t m k l _ _ _ R1). now right.
+  - pose proof (run_ordered_lock t m rs w Q ND') as X.
+    destruct (can_all m (rsleaves rs) (w_raw w)).
+    + destruct X as [w1 [R1 [E1 _]]]. rewrite R1 in R. inversion R; subst. apply (eff_nobad _ _ _ E1).
+    + destruct X as [w1 [R1 _]]. rewrite R1 in R. inversion R; subst.
+      apply (norel_nobad nopw t _ _ _ _ R1). unfold ordered_lock in R1.
+      apply (ordered_lock_norel nopw t m (rr_lock m) rs) with (done := []) (out := OBlocked); [|exact R1|now right].
+      apply Forall_forall. intros x _. apply rr_lock_norel.
+  - apply (retry_lock_nobad t m rs ND' fuel w out w' Hf Q R).
+  - inversion R. apply nobad_refl.
+Qed.
